@@ -79,6 +79,8 @@ trait Cont: zeroize::Zeroize + Bytes + MutBytes + NewBytes + Default + Clone + L
     fn resize_locked(_p: &mut Locked<Self>, _n: usize) -> bool { false }
     fn clone_locked(_p: &Locked<Self>) -> Option<Locked<Self>> { None }
     fn clone_lockedro(_p: &LockedRO<Self>) -> Option<LockedRO<Self>> { None }
+    fn clone_from_locked(_d: &mut Locked<Self>, _s: &Locked<Self>) -> bool { false }
+    fn clone_from_lockedro(_d: &mut LockedRO<Self>, _s: &LockedRO<Self>) -> bool { false }
     fn from_slice_locked(_s: &[u8]) -> Option<Result<Locked<Self>, dryoc::Error>> { None }
     fn from_slice_lockedro(_s: &[u8]) -> Option<Result<LockedRO<Self>, dryoc::Error>> { None }
     /// serde decode of an encoding that carries `payload` into the locked form of the container
@@ -105,6 +107,8 @@ impl Cont for HeapBytes {
     fn resize_locked(p: &mut Locked<Self>, n: usize) -> bool { p.resize(n, 0); true }
     fn clone_locked(p: &Locked<Self>) -> Option<Locked<Self>> { Some(p.clone()) }
     fn clone_lockedro(p: &LockedRO<Self>) -> Option<LockedRO<Self>> { Some(p.clone()) }
+    fn clone_from_locked(d: &mut Locked<Self>, s: &Locked<Self>) -> bool { d.clone_from(s); true }
+    fn clone_from_lockedro(d: &mut LockedRO<Self>, s: &LockedRO<Self>) -> bool { d.clone_from(s); true }
     fn from_slice_locked(s: &[u8]) -> Option<Result<Locked<Self>, dryoc::Error>> { Some(HeapBytes::from_slice_into_locked(s)) }
     fn from_slice_lockedro(s: &[u8]) -> Option<Result<LockedRO<Self>, dryoc::Error>> { Some(HeapBytes::from_slice_into_readonly_locked(s)) }
 }
@@ -343,6 +347,29 @@ fn run<A: Cont>(len: usize, toks: &[&str]) -> String {
                         None => "n/a".into(),
                     }
                 }
+                // clonefrom:<j>@<i> — slots[i].clone_from(&slots[j]) (the `Clone::clone_from` form: same type state on both sides)
+                "clonefrom" => {
+                    let j: usize = arg.parse().unwrap_or(0);
+                    if idx >= slots.len() || j >= slots.len() || j == idx { return "noslot".into(); }
+                    let (dst, src) = if idx < j { let (a, b) = slots.split_at_mut(j); (&mut a[idx], &b[0]) } else { let (a, b) = slots.split_at_mut(idx); (&mut b[0], &a[j]) };
+                    let done = match (&mut dst.r, &src.r) {
+                        (Reg::Plain(d), Reg::Plain(s)) => { d.clone_from(s); true }
+                        (Reg::UR(d), Reg::UR(s)) => { d.clone_from(s); true }
+                        (Reg::URO(d), Reg::URO(s)) => { d.clone_from(s); true }
+                        (Reg::LR(d), Reg::LR(s)) => match A::clone_locked(s) { Some(_) => A::clone_from_locked(d, s), None => false },
+                        (Reg::LRO(d), Reg::LRO(s)) => match A::clone_lockedro(s) { Some(_) => A::clone_from_lockedro(d, s), None => false },
+                        _ => false,
+                    };
+                    if !done { return "n/a".into(); }
+                    dst.refresh();
+                    if dst.slice().map(|x| x.to_vec()) == src.slice().map(|x| x.to_vec()) { "ok".into() } else { "mismatch-clone_from-contents".into() }
+                }
+                // panicdrop — the region is dropped while a panic unwinds through its owner
+                "panicdrop" => {
+                    let r = take!();
+                    let _ = std::panic::catch_unwind(std::panic::AssertUnwindSafe(move || { let _owned = r; panic!("unwind through the owner of a protected region"); }));
+                    "ok".into()
+                }
                 "resize" => {
                     if idx >= slots.len() { return "noslot".into(); }
                     let n: usize = arg.parse().unwrap_or(0);
@@ -467,7 +494,70 @@ fn run<A: Cont>(len: usize, toks: &[&str]) -> String {
     out.join(";")
 }
 
+/// `lockedctor <name> <k>`: a crate-level constructor that places keys in locked memory, with the k-th and all later lock requests
+/// refused (k = 0: none).  Answer `<ok|err|panic> lck=<kB still locked after the result was dropped> [check=<ok|bad>]`
+fn locked_ctor(name: &str, k: i64) -> String {
+    use dryoc::keypair::KeyPair;
+    use dryoc::precalc::PrecalcSecretKey;
+    use dryoc::sign::SigningKeyPair;
+    type L32 = Locked<HeapByteArray<32>>;
+    type L64 = Locked<HeapByteArray<64>>;
+    type R32 = LockedRO<HeapByteArray<32>>;
+    type R64 = LockedRO<HeapByteArray<64>>;
+    let base = vmlck_kb();
+    let (pk, sk) = dryoc::classic::crypto_box::crypto_box_keypair();
+    let want = dryoc::classic::crypto_box::crypto_box_beforenm(&pk, &sk);
+    if k > 0 { set_fail_from(k); }
+    let r = std::panic::catch_unwind(std::panic::AssertUnwindSafe(|| -> Result<bool, ()> {
+        match name {
+            "box_new_locked_keypair" => KeyPair::<L32, L32>::new_locked_keypair().map(|kp| kp.secret_key.as_slice() == [0u8; 32]).map_err(|_| ()),
+            "box_gen_locked_keypair" => KeyPair::<L32, L32>::gen_locked_keypair().map(|kp| {
+                let mut p = [0u8; 32];
+                dryoc::classic::crypto_core::crypto_scalarmult_base(&mut p, kp.secret_key.as_array());
+                kp.public_key.as_slice() == p && kp.secret_key.as_slice() != [0u8; 32]
+            }).map_err(|_| ()),
+            "box_gen_readonly_locked_keypair" => KeyPair::<R32, R32>::gen_readonly_locked_keypair().map(|kp| {
+                let mut p = [0u8; 32];
+                dryoc::classic::crypto_core::crypto_scalarmult_base(&mut p, kp.secret_key.as_array());
+                kp.public_key.as_slice() == p
+            }).map_err(|_| ()),
+            "precalculate_locked" => PrecalcSecretKey::<L32>::precalculate_locked(&pk, &sk).map(|p| p.as_slice() == want).map_err(|_| ()),
+            "precalculate_readonly_locked" => PrecalcSecretKey::<R32>::precalculate_readonly_locked(&pk, &sk).map(|p| p.as_slice() == want).map_err(|_| ()),
+            "keypair_precalculate_locked" => {
+                set_fail_from(-1);
+                let kp = KeyPair::<L32, L32>::gen_locked_keypair().map_err(|_| ())?;
+                if k > 0 { set_fail_from(k); }
+                let mut w = [0u8; 32];
+                w.copy_from_slice(&dryoc::classic::crypto_box::crypto_box_beforenm(&pk, kp.secret_key.as_array()));
+                kp.precalculate_locked(&pk).map(|p| p.as_slice() == w).map_err(|_| ())
+            }
+            "keypair_precalculate_readonly_locked" => {
+                set_fail_from(-1);
+                let kp = KeyPair::<R32, R32>::gen_readonly_locked_keypair().map_err(|_| ())?;
+                if k > 0 { set_fail_from(k); }
+                let mut w = [0u8; 32];
+                w.copy_from_slice(&dryoc::classic::crypto_box::crypto_box_beforenm(&pk, kp.secret_key.as_array()));
+                kp.precalculate_readonly_locked(&pk).map(|p| p.as_slice() == w).map_err(|_| ())
+            }
+            "sign_new_locked_keypair" => SigningKeyPair::<L32, L64>::new_locked_keypair().map(|kp| kp.secret_key.as_slice() == [0u8; 64]).map_err(|_| ()),
+            "sign_gen_locked_keypair" => SigningKeyPair::<L32, L64>::gen_locked_keypair().map(|kp| kp.secret_key.as_slice()[32..] == *kp.public_key.as_slice()).map_err(|_| ()),
+            "sign_gen_readonly_locked_keypair" => SigningKeyPair::<R32, R64>::gen_readonly_locked_keypair().map(|kp| kp.secret_key.as_slice()[32..] == *kp.public_key.as_slice()).map_err(|_| ()),
+            _ => Err(()),
+        }
+    }));
+    set_fail_from(-1);
+    let lck = vmlck_kb() as i64 - base as i64;
+    match r {
+        Ok(Ok(good)) => format!("ok lck={} check={}", lck, if good { "ok" } else { "bad" }),
+        Ok(Err(())) => format!("err lck={}", lck),
+        Err(_) => format!("panic lck={}", lck),
+    }
+}
+
 pub fn dispatch(op: &str, a: &[&str]) -> Option<Ans> {
+    if op == "lockedctor" {
+        return Some((locked_ctor(a[0], a.get(1).and_then(|x| x.parse().ok()).unwrap_or(0)), "n/a".into()));
+    }
     if op != "prot" {
         return None;
     }
